@@ -57,6 +57,15 @@ def make_models():
     from .plug_c01 import C01Models  # C01: abstract CSR matrices, record-model constructors, small Python features (gated on `c01 = True` contracts / own heap objects)
 
     m.plugins.insert(0, C01Models())
+    from .plug_c16 import C16Models  # C16/C13: parallel gradient ([f] * n, [x, *xs], execute summary), selection unions (gated on `c16 = True` contracts / own values)
+
+    m.plugins.insert(0, C16Models())
+    from .plug_json import JsonModels  # C15/C20: JSON grammar caches, abstract schema builder, pickled state of JSONGrammar / HDF5Cache (gated on own types / classes)
+
+    m.plugins.insert(0, JsonModels())
+    from .plug_c09 import C09Models  # C09: chains (optional tuples, CouplingStructure constructor model, discipline.jac ghost dictionary, sums of blocks; gated on `c09_chains = True`)
+
+    m.plugins.insert(0, C09Models())
     return m
 
 
